@@ -147,17 +147,18 @@ static void mode_matrix(void){
   { /* round trip: a tone in one input channel comes back dominant in that channel */ OpusProjectionDecoder *pd=opus_projection_decoder_create(Fs,ch,S,C,mt,msz,&err); if(!pd){ vc_viol("matrix:create","projection decoder create failed %d",err); goto done; }
     opus_projection_encoder_ctl(pe,OPUS_SET_BITRATE(64000*ch)); int fs=960; float *in=(float*)malloc(sizeof(float)*fs*ch), *out=(float*)malloc(sizeof(float)*fs*ch); double *en=(double*)calloc(ch,sizeof(double)), *cross=(double*)calloc(ch,sizeof(double)); static unsigned char pk[40000];
     int c0=vc_below(&r,ch); double f0=300+vc_unit(&r)*2000; long t0=0; int delay=0; opus_int32 la=0; opus_projection_encoder_ctl(pe,OPUS_GET_LOOKAHEAD(&la)); delay=la;
-    float *hist=(float*)calloc((size_t)fs*30,sizeof(float)); int nfr=25;
+    float *hist=(float*)calloc((size_t)fs*30,sizeof(float)); int nfr=25; int api=(int)((vc_case/10)%3);   /* float, 16-bit and 24-bit entry points (each has its own matrix multiply routines) */ opus_int16 *i16=(opus_int16*)malloc(sizeof(opus_int16)*fs*ch); opus_int32 *i24=(opus_int32*)malloc(sizeof(opus_int32)*fs*ch);
     for(int k=0;k<nfr;k++){ for(int i=0;i<fs;i++){ float v=0.5f*(float)sin(6.283185307*f0*(t0+i)/Fs); hist[t0+i]=v; for(int c=0;c<ch;c++) in[i*ch+c]=c==c0?v:0.f; }
-      int len=opus_projection_encode_float(pe,in,fs,pk,sizeof pk); if(len<=0){ vc_viol("matrix:encode","projection encode %d",len); break; } int rd=opus_projection_decode_float(pd,pk,len,out,fs,0); if(rd!=fs){ vc_viol("matrix:decode","projection decode %d",rd); break; }
+      int len; if(api==1){ for(int i=0;i<fs*ch;i++) i16[i]=vc_f2s(in[i]); len=opus_projection_encode(pe,i16,fs,pk,sizeof pk); } else if(api==2){ for(int i=0;i<fs*ch;i++) i24[i]=(opus_int32)lrintf(in[i]*8388608.f); len=opus_projection_encode24(pe,i24,fs,pk,sizeof pk); } else len=opus_projection_encode_float(pe,in,fs,pk,sizeof pk);
+      if(len<=0){ vc_viol("matrix:encode","projection encode %d",len); break; } int rd; if(api==1){ rd=opus_projection_decode(pd,pk,len,i16,fs,0); for(int i=0;i<fs*ch;i++) out[i]=i16[i]/32768.f; } else if(api==2){ rd=opus_projection_decode24(pd,pk,len,i24,fs,0); for(int i=0;i<fs*ch;i++) out[i]=i24[i]/8388608.f; } else rd=opus_projection_decode_float(pd,pk,len,out,fs,0); if(rd!=fs){ vc_viol("matrix:decode","projection decode %d",rd); break; }
       if(k>=5) for(int i=0;i<fs;i++){ long ti=t0+i-delay; if(ti<0) continue; for(int c=0;c<ch;c++){ double o=G*out[i*ch+c]; en[c]+=o*o; cross[c]+=o*hist[ti]; } } t0+=fs; }
     double ein=0; for(long i=5L*fs-delay;i<(long)nfr*fs-delay;i++) if(i>=0) ein+=hist[i]*hist[i];
     int best=0; for(int c=1;c<ch;c++) if(en[c]>en[best]) best=c; double lvl=10*log10(en[c0]/ein+1e-30); double corr=cross[c0]/sqrt(en[c0]*ein+1e-30);
     double other=0; for(int c=0;c<ch;c++) if(c!=c0&&en[c]>other) other=en[c];
     vc_min("projection_roundtrip_level_db",lvl); vc_max("projection_roundtrip_level_db_max",lvl); vc_min("projection_roundtrip_correlation",corr); vc_min("projection_roundtrip_separation_db",10*log10(en[c0]/(other+1e-30)));
-    if(best!=c0||corr<0.9||fabs(lvl)>1.5||10*log10(en[c0]/(other+1e-30))<15) vc_viol("matrix:roundtrip","order %d (%d channels): tone in input channel %d comes back with level %.2f dB, correlation %.3f, loudest output channel %d, separation %.1f dB",order,ch,c0,lvl,corr,best,10*log10(en[c0]/(other+1e-30))); else vc_count("projection_roundtrips_ok",1);
-    free(in); free(out); free(en); free(cross); free(hist); opus_projection_decoder_destroy(pd); }
-  vc_sig3(order,nd,0);
+    if(best!=c0||corr<0.9||fabs(lvl)>1.5||10*log10(en[c0]/(other+1e-30))<15) vc_viol("matrix:roundtrip","order %d (%d channels): tone in input channel %d comes back with level %.2f dB, correlation %.3f, loudest output channel %d, separation %.1f dB (sample format %d)",order,ch,c0,lvl,corr,best,10*log10(en[c0]/(other+1e-30)),api); else { vc_count("projection_roundtrips_ok",1); vc_named("projection-roundtrip-format-%d",api); }
+    free(in); free(out); free(en); free(cross); free(hist); free(i16); free(i24); opus_projection_decoder_destroy(pd); vc_sig3(order,nd,api); }
+
 done:
   free(mt); opus_projection_encoder_destroy(pe);
 }
